@@ -115,8 +115,8 @@ def _one(ctx: Any, expected: Expected, case: Dict[str, Any], name: str) -> None:
                 # a valid input for which the generator under test dies: its fractions are listed nowhere
                 ctx.violation("taxreport.generator-crashed", {"error": crash, "country": country}, case)
                 return
-            ctx.count("unobservable")
-            ctx.tag("tag_unobservable", f"cli exit {res.exit}: {res.stderr.strip().splitlines()[-1][:140] if res.stderr.strip() else ''}")
+            # the input and the options are valid by construction and the report this property is about was not produced
+            ctx.violation("taxreport.run-failed-on-valid-input", {"exit": res.exit, "error": res.stderr.strip().splitlines()[-1][:200] if res.stderr.strip() else ""}, case)
             return
         path = res.report(f"tax_report_{country}")
         if not path:
